@@ -55,7 +55,7 @@ func vC13_newPID() *PID {
 // the context delivered for a tag carries exactly what the sender put in
 func vC13_same(ctx *ReceiveContext, pid *PID, tag int) bool {
 	m, ok := ctx.message.(*vC13Msg)
-	return ok && m == vC13_msg[tag] && m.tag == tag && ctx.sender == vC13_sender[tag] && ctx.response == vC13_resp[tag] &&
+	return ok && m == vC13_msg[tag] && ctx.sender == vC13_sender[tag] && ctx.response == vC13_resp[tag] &&
 		ctx.requestID == vC13_reqID[tag] && ctx.self == pid && ctx.err == nil
 }
 
@@ -77,6 +77,7 @@ var vC13_prefixes = [...]string{
 	"AAAASSS", // main [3] stash [0 1 2]
 	"AASSLA",  // main [0 1 2] stash []
 	"AAASHU",  // main [2 0] stash [], one handled in between
+	"ASLAA",   // stash used and drained by UnstashAll, then new arrivals: main [0 1 2] stash []
 }
 
 func vC13_opOf(c byte) int {
@@ -107,6 +108,8 @@ func vC13_history(K int) {
 	var mainQ, stashQ vC13Queue
 	next := 0
 	prefix := vC13_prefixes[vCase("prefix")]
+	share := vCase("share") == 1
+	shared := &vC13Msg{tag: -1}
 	// bounds for the final drain loops, computed (concretely) from the state the prefix built
 	bm, bs := 0, 0
 	for k := 0; k < len(prefix)+K; k++ {
@@ -129,7 +132,13 @@ func vC13_history(K int) {
 		case 0:
 			tag := next
 			next++
-			vC13_msg[tag] = &vC13Msg{tag: tag}
+			// a sender may re-use one message value for all its sends ("tick"): case split, so that the heap stays concrete.
+			// Deliveries are told apart by their position (and sender / response / request id), not by their payload.
+			payload := &vC13Msg{tag: tag}
+			if share {
+				payload = shared
+			}
+			vC13_msg[tag] = payload
 			// no control flow here: a 3-way switch would leave the executor with a non-trivial (tautological) path guard
 			// (an indexed read senders[i] with symbolic i would add a bounds-check path condition as well)
 			var snd *PID
